@@ -19,7 +19,9 @@ RULE = ("(a) single calls: the 23 (start state, call) cases of C13/C10 plus stor
         "truncates and buffer flushes at close) and reads every file at a permanent address the way a concurrent "
         "reader or a post-mortem inspector would (page cache = what a killed process leaves). (b) concurrent "
         "writers: object and metadata pair scenarios of C07/C12 under the cooperative scheduler with the observer "
-        "after every shared operation of either thread. Oracle: every object file's digest equals its name; every "
+        "after every shared operation of either thread. (c) thorough only: a free-running reader thread scanning "
+        "the store while a writer thread stores / overwrites / deletes 0.3-4 MB objects and documents (reaches states "
+        "strictly inside one system call). Oracle: every object file's digest equals its name; every "
         "metadata document is byte-for-byte one of the supplied versions; every pid reference is exactly one cid of "
         "the scenario; within one call a permanent address changes presence at most once (appears or disappears "
         "in a single step; an overwritten document is never absent); a staging file in a tmp directory is written by "
@@ -64,6 +66,10 @@ def shards(tier, seed):
     sel = objs[:k] + metas[:k]
     for c, s in zip(chunk(sel, n), split_seeds(seed + 99, n)):
         out.append(("conc", c, tier, s))
+    if tier == "thorough":
+        # states strictly INSIDE one system call: a real reader thread scanning while a real writer thread works
+        for s in split_seeds(seed + 909, n):
+            out.append(("reader", 40, tier, s))
     return out
 
 
@@ -79,8 +85,80 @@ def _ensure_cases():
     F.SPEC.setdefault("B5", {"cseed": 906, "size": 5 * 8192})
 
 
+def run_free_reader(rounds, sub_seed):
+    """A writer thread stores / overwrites / deletes large objects and documents (free-running, OS-scheduled)
+    while a reader thread keeps reading every permanent file."""
+    import os
+    import threading
+    from ..absstate import walk_files
+    from ..common import open_store, call
+    res = ShardResult()
+    rng = random.Random(sub_seed)
+    scratch = new_scratch("obsf")
+    lay = Layout(3, 2, "SHA-256", DEFAULT_NS)
+    try:
+        root = os.path.join(scratch, "store")
+        st = open_store(root)
+        blobs = [make_content(rng.getrandbits(30), rng.choice([300000, 1500000, 4000000])) for _ in range(4)]
+        docs = [make_content(rng.getrandbits(30), rng.choice([200000, 900000])) for _ in range(3)]
+        paths = []
+        for i, b in enumerate(blobs + docs):
+            p = os.path.join(scratch, f"in{i}")
+            with open(p, "wb") as f:
+                f.write(b)
+            paths.append(p)
+        valid_docs = {hashlib.sha256(d).hexdigest() for d in docs}
+        valid_cids = {lay.cid_of(b) for b in blobs}
+        stop = threading.Event()
+        findings = []
+        counters = {"scans": 0, "files": 0}
+
+        def reader():
+            while not stop.is_set():
+                files, _d = walk_files(root)
+                counters["scans"] += 1
+                for rel, data in files.items():
+                    parts = rel.split("/")
+                    if (len(parts) >= 2 and parts[1] == "tmp") or parts[-1].endswith("_delete") or rel == "hashstore.yaml":
+                        continue
+                    counters["files"] += 1
+                    if parts[0] == "objects" and lay.cid_of(data) != "".join(parts[1:]):
+                        findings.append(("object-content-differs-from-name", {"path": rel, "len": len(data)}))
+                    elif parts[0] == "metadata" and hashlib.sha256(data).hexdigest() not in valid_docs:
+                        findings.append(("metadata-document-not-a-supplied-version", {"path": rel, "len": len(data)}))
+                    elif parts[0] == "refs" and parts[1] == "pids" and data.decode("utf-8", "replace") not in valid_cids:
+                        findings.append(("pid-ref-not-one-complete-cid", {"path": rel, "content": data[:80].decode("utf-8", "replace")}))
+
+        t = threading.Thread(target=reader, daemon=True)
+        t.start()
+        for r in range(rounds):
+            i = rng.randrange(len(blobs))
+            pid = f"pid{r % 5}"
+            call(st.store_object, pid, paths[i])
+            call(st.store_metadata, pid, paths[len(blobs) + rng.randrange(len(docs))])
+            call(st.store_metadata, pid, paths[len(blobs) + rng.randrange(len(docs))])
+            if rng.random() < 0.6:
+                call(st.delete_object, pid)
+        stop.set()
+        t.join(30)
+        res.evaluations = counters["files"]
+        res.count("free_reader_scans", counters["scans"])
+        res.count("permanent_files_read", counters["files"])
+        res.count("observation_points", counters["scans"])
+        res.distinct.add(f"free-reader:{sub_seed}")
+        for symptom, detail in findings[:5]:
+            res.violation({"symptom": symptom, "observer": "free-running reader thread", "where": _where_class(detail.get("path", ""))},
+                          {"engine": "free-reader", "detail": jsonable(detail), "seed": sub_seed})
+    finally:
+        rmtree(scratch)
+        clear_atexit_tmp_handlers()
+    return res
+
+
 def run_shard(kind, payload, tier, sub_seed):
     _ensure_cases()
+    if kind == "reader":
+        return run_free_reader(payload, sub_seed)
     res = ShardResult()
     if kind == "single":
         for ci in payload:
